@@ -533,3 +533,17 @@ func exprStrD(v ssa.Value, d int) string {
 	}
 	return fmt.Sprintf("%T:%s", v, v.Name())
 }
+
+// fieldBase strips a chain of FieldAddr/Field: &x.a.b -> x.
+func fieldBase(v ssa.Value) ssa.Value {
+	for {
+		switch x := v.(type) {
+		case *ssa.FieldAddr:
+			v = x.X
+		case *ssa.Field:
+			v = x.X
+		default:
+			return v
+		}
+	}
+}
